@@ -179,6 +179,18 @@ def spellings_stage(Rn, tier, rng):
         if ne:   # (row array, column array) pairs with negative entries; the arrays are the caller's
             rl = [ne[0], ne[-1], ne[0] - nr]; cl = [-1, 0, -ls[ne[0]]]
             cases.append((R, (rl, cl), "(np.array(rows), np.array(cols))", (np.array(rl), np.array(cl))))
+    # narrow numpy integer scalars as a column index of a long, lazily derived strided array (no arithmetic may be done in the scalar's own type)
+    long_rows = [list(range(300)), list(range(1000, 1250)), list(range(5000, 5290))]
+    for cstep in (2, 3, -2):
+        for j in (np.int8(100), np.int8(-100), np.uint8(70), np.int16(90), np.int8(0)):
+            exp = guarded(lambda: [r[::cstep][int(j)] for r in long_rows])
+            got = guarded(lambda: np.asarray(RaggedArray(long_rows)[:, ::cstep][:, j]).tolist())
+            Rn.record(f"long-rows [:, ::{cstep}][:, {type(j).__name__}({int(j)})]", got, exp, exp, True, "spelling/narrow-scalar-on-strided-view",
+                      py=f"RaggedArray([range(300), range(1000,1250), range(5000,5290)])[:, ::{cstep}][:, np.{type(j).__name__}({int(j)})]")
+            if int(j) >= 0:      # get_column_values: the rows that reach the column
+                exp2 = [r[::cstep][int(j)] for r in long_rows if len(r[::cstep]) > int(j)]
+                got2 = guarded(lambda: np.asarray(RaggedArray(long_rows)[:, ::cstep].get_column_values(j)).tolist())
+                Rn.record(f"long-rows [:, ::{cstep}].get_column_values({type(j).__name__}({int(j)}))", got2, exp2, exp2, True, "spelling/narrow-scalar-on-strided-view")
     lines = ["getitem " + show(R) + " " + show(enc_index(idx)) for R, idx, _, _ in cases]
     out = oracle(lines)
     for (R, idx, name, sp), line, o in zip(cases, lines, out):
